@@ -22,6 +22,8 @@ var vpC12Targets = []vpC12Target{
 var vpC12TLists = [][]string{
 	{"lowercase"},
 	{"lowercase", "removeNulls"},
+	{"hexDecode", "lowercase"}, // hexDecode fails on these values: the error path of the cache
+	{"hexDecode"},
 	{"removeNulls"},
 	{"lowercase", "length"},
 	{},
